@@ -302,7 +302,7 @@ class SetAlg:
             return self.member(e, ("comp", "set", t[2][1], t[3]))
         if h == "accum" and t[1] in ("union", "concat") and len(t) > 5 and t[5] == ("const", True):
             # a loop that may stop early: which elements it reached is not a property of the collection alone
-            return ("atom", ("in", e, self.canon_opaque(t)))
+            return self._in_atom(e, t)
         if h == "accum" and t[1] in ("union", "concat"):
             return f_or(*[self._member_part(e, p) for p in self._merge_parts(self.union_parts(t))])
         if h == "bigunion":
@@ -310,6 +310,15 @@ class SetAlg:
         if h == "mut":
             # functional reading of effects is the evaluator's job; unknown effects stay atoms
             pass
+        return self._in_atom(e, t)
+
+    def _in_atom(self, e: Term, t: Term) -> Formula:
+        """membership in a collection that is not decomposed further: an atom -- after the domain rewrites for membership tests (e.g. networkx
+        adjacency: `x in G.successors(u)` is `G.has_edge(u, x)`) have had their say, so that a test and a loop over the same collection agree"""
+        raw = ("in", e, t)
+        rw = self.rewrite(raw)
+        if rw != raw and rw[0] != "in":
+            return self.cond(rw)
         return ("atom", ("in", e, self.canon_opaque(t)))
 
     def _zone(self, e: Term, t: Term) -> Formula | None:
@@ -883,6 +892,8 @@ class SetAlg:
         """Canonical form of a term whose head is not decomposed as a set expression."""
         t = self.rewrite(t)
         h = t[0]
+        if (h == "call" and len(t) < 4) or (h == "meth" and len(t) < 5):
+            return (h,) + tuple(self.canon(x) for x in t[1:])  # not a call term (a data tuple that happens to start with the word)
         if h in ("listlit", "tuplelit") and t[1] and all(x[0] == "star" for x in t[1]):
             # [*a, *b] = a followed by b
             out = t[1][0][1]
